@@ -8,4 +8,7 @@ import Preflate.Props.C02
 #print axioms Preflate.recompress_decompress
 #print axioms Preflate.verify_same
 #print axioms Preflate.decompress_prefix
+#print axioms Preflate.analysis_ops_wf
+#print axioms Preflate.chains_pred_bounded
+#print axioms Preflate.decompress_bytes_chain
 #print axioms Preflate.context_numbers_match_source
